@@ -1,6 +1,8 @@
 package main
 
 import (
+	"fmt"
+	"go/types"
 	"unicode/utf8"
 
 	"golang.org/x/tools/go/ssa"
@@ -8,6 +10,9 @@ import (
 
 func (e *Engine) harnessAPI2(name string, args []Value, fn *ssa.Function) (Value, bool) {
 	if r, ok := e.nodeAPI(name, args); ok {
+		return r, true
+	}
+	if r, ok := e.deepAPI(name, args); ok {
 		return r, true
 	}
 	switch name {
@@ -209,6 +214,184 @@ func (e *Engine) nodeAPI(name string, args []Value) (Value, bool) {
 		return e.bytesFromRope(n.content), true
 	case "nRaw":
 		return e.bytesFromRope(Rope{SegItem{e.nodeOf(args[0])}}), true
+	}
+	return nil, false
+}
+
+// ---- deep structural helpers (C09, C18, C19) -----------------------------------------------------------
+
+func (e *Engine) bytesRoot(o *BytesObj) *BytesObj {
+	for o != nil && o.aliasOf != nil {
+		o = o.aliasOf
+	}
+	return o
+}
+
+// collectBytes gathers the backing objects of every byte slice reachable from v.
+func (e *Engine) collectBytes(v Value, seen map[interface{}]bool, out map[*BytesObj]bool) {
+	switch x := v.(type) {
+	case BytesV:
+		if x.obj != nil {
+			out[e.bytesRoot(x.obj)] = true
+		}
+	case SliceV:
+		if x.obj != nil && !seen[x.obj] {
+			seen[x.obj] = true
+			for i := 0; i < x.n; i++ {
+				e.collectBytes(x.obj.elems[x.off+i], seen, out)
+			}
+		}
+	case *StructV:
+		for _, f := range x.fields {
+			e.collectBytes(f, seen, out)
+		}
+	case *ArrayV:
+		for _, f := range x.elems {
+			e.collectBytes(f, seen, out)
+		}
+	case PtrV:
+		if x.cell != nil && !seen[x.cell] {
+			seen[x.cell] = true
+			e.collectBytes(getPath(x.cell.val, x.path), seen, out)
+		}
+		if x.arr != nil {
+			e.collectBytes(x.arr.elems[x.idx], seen, out)
+		}
+	case MapV:
+		if x.obj != nil && !seen[x.obj] {
+			seen[x.obj] = true
+			for _, en := range x.obj.entries {
+				e.collectBytes(en.k, seen, out)
+				e.collectBytes(en.v, seen, out)
+			}
+		}
+	case Iface:
+		if x.typ != nil {
+			e.collectBytes(x.val, seen, out)
+		}
+	}
+}
+
+func (e *Engine) deepEqual(a, b Value, depth int) *Term {
+	tt := e.tt
+	if depth > 60 {
+		e.unsupported("vDeepEqual: too deep")
+	}
+	switch x := a.(type) {
+	case *Term:
+		y, ok := b.(*Term)
+		if !ok || x.w != y.w {
+			return tt.Bool(false)
+		}
+		return tt.Eq(x, y)
+	case StrV:
+		y, ok := b.(StrV)
+		if !ok {
+			return tt.Bool(false)
+		}
+		return e.ropeEq(x.r, y.r)
+	case BytesV:
+		y, ok := b.(BytesV)
+		if !ok || (x.obj == nil) != (y.obj == nil) {
+			return tt.Bool(false)
+		}
+		if x.obj == nil {
+			return tt.Bool(true)
+		}
+		return e.ropeEq(e.bytesRope(x), e.bytesRope(y))
+	case SliceV:
+		y, ok := b.(SliceV)
+		if !ok || (x.obj == nil) != (y.obj == nil) || x.n != y.n {
+			return tt.Bool(false)
+		}
+		var conj []*Term
+		for i := 0; i < x.n; i++ {
+			conj = append(conj, e.deepEqual(x.obj.elems[x.off+i], y.obj.elems[y.off+i], depth+1))
+		}
+		return tt.And(conj...)
+	case *StructV:
+		y, ok := b.(*StructV)
+		if !ok || len(x.fields) != len(y.fields) {
+			return tt.Bool(false)
+		}
+		var conj []*Term
+		for i := range x.fields {
+			conj = append(conj, e.deepEqual(x.fields[i], y.fields[i], depth+1))
+		}
+		return tt.And(conj...)
+	case PtrV:
+		y, ok := b.(PtrV)
+		if !ok || x.isNil() != y.isNil() {
+			return tt.Bool(false)
+		}
+		if x.isNil() {
+			return tt.Bool(true)
+		}
+		return e.deepEqual(e.load(x), e.load(y), depth+1)
+	case MapV:
+		y, ok := b.(MapV)
+		if !ok || (x.obj == nil) != (y.obj == nil) {
+			return tt.Bool(false)
+		}
+		if x.obj == nil {
+			return tt.Bool(true)
+		}
+		if len(x.obj.entries) != len(y.obj.entries) {
+			return tt.Bool(false)
+		}
+		var conj []*Term
+		for _, en := range x.obj.entries {
+			i := e.mapFind(y.obj, en.k)
+			if i < 0 {
+				return tt.Bool(false)
+			}
+			conj = append(conj, e.deepEqual(en.v, y.obj.entries[i].v, depth+1))
+		}
+		return tt.And(conj...)
+	case Iface:
+		y, ok := b.(Iface)
+		if !ok || (x.typ == nil) != (y.typ == nil) {
+			return tt.Bool(false)
+		}
+		if x.typ == nil {
+			return tt.Bool(true)
+		}
+		if !types.Identical(x.typ, y.typ) {
+			return tt.Bool(false)
+		}
+		return e.deepEqual(x.val, y.val, depth+1)
+	case *FuncV:
+		y, ok := b.(*FuncV)
+		return tt.Bool(ok && x == nil && y == nil)
+	case OpaqueV:
+		y, ok := b.(OpaqueV)
+		return tt.Bool(ok && x.kind == y.kind)
+	case BigV:
+		y, ok := b.(BigV)
+		if !ok {
+			return tt.Bool(false)
+		}
+		xm, ym := e.unify(x.mag, y.mag)
+		return tt.And(tt.Eq(xm, ym), tt.Eq(x.neg, y.neg))
+	case nil:
+		return tt.Bool(b == nil)
+	}
+	e.unsupported(fmt.Sprintf("vDeepEqual on %T", a))
+	return nil
+}
+
+func (e *Engine) deepAPI(name string, args []Value) (Value, bool) {
+	switch name {
+	case "vDeepEqual":
+		return e.deepEqual(args[0], args[1], 0), true
+	case "vAliases":
+		roots := map[*BytesObj]bool{}
+		e.collectBytes(args[0], map[interface{}]bool{}, roots)
+		b := args[1].(BytesV)
+		if b.obj == nil {
+			return e.tt.Bool(false), true
+		}
+		return e.tt.Bool(roots[e.bytesRoot(b.obj)]), true
 	}
 	return nil, false
 }
